@@ -58,6 +58,13 @@ FIXED = [
  ("fix: bind encrypted entries to the key they are stored under", ["C17"], "the file of one key put in place of another key's file passed authentication and Get returned the other key's value (C17 tamper kind replace-with-other-entry)"),
  ("fix: apply index updates, freshening and invalidation to what is stored now", ["C16"], "lookups made before the origin was contacted were written back afterwards: overlapping requests for two variants lost one index entry; a 304 landing after a POST (or a reload) wrote the invalidated / replaced entry back; a background 304 for one representation was merged onto another stored under the same id (C16 Mode S)"),
  ("fix: list keys that are not valid UTF-8 byte-exactly in the maintenance API", ["C14"], "the list endpoint mangled keys that are not valid UTF-8 (U+FFFD): listed names that do not exist, distinct keys collapsing (C14 sequences through the API; the comparison used to go through the same lossy encoding)"),
+ ("fix: use the first member of a list-based Age value", ["C01", "C11"], "'Age: 90, 95' counted as age 0: a response already stale on arrival was served as fresh, with a too small Age (C01 grid / pinned points)"),
+ ("fix: an empty Expires field is an invalid date", ["C01"], "'Expires:' with an empty value was treated as absent and the Last-Modified heuristic applied (C01 grid value raw:)"),
+ ("fix: normalise percent-encoding before removing dot-segments, and lower-case hosts in ASCII only", ["C03", "C09", "C07"], "'/a/%2E%2E/../b' shared the key of '/a/b' instead of '/b' (foreign response served, C03) and '/x/a/%2e/../b' missed '/x/b' (C09, C07); U+0130 / U+212A in host names were lower-cased to ASCII letters, merging different hosts (C03)"),
+ ("fix: a response whose body fails while it is being stored is forwarded with the bytes that did arrive", ["C05"], "on a miss whose body stream failed part-way the client received zero bytes and the error instead of the bytes the origin had delivered (C05 monitor failed-body-prefix-lost)"),
+ ("fix: background revalidation is bounded by the configured timeout, not by the caller's context", ["C20"], "the background request inherited the caller's context: cancelled with it right after the stale response was returned, never sent when it was cancelled beforehand (C20 grid, caller contexts)"),
+ ("fix: of several stored responses that match a request the most recent one is used", ["C09"], "after the origin changed its Vary field an old stale response shadowed a newer fresh matching one and the origin was contacted (C09 variants, vary-changed scene)"),
+ ("fix: entries and their index change in one step", ["C16"], "a 304 that had passed its check overwrote a newer representation stored before its write; the orphaned entry of a response whose Vary changed was freshened by a late 304 and came back, also after an invalidation (C16 Mode S, reload pairs)"),
 ]
 log = subprocess.run(["git", "-C", "/repo", "log", "--format=%h %s"], capture_output=True, text=True).stdout.splitlines()
 kf_path = os.path.join(ROOT, "known_findings.json")
